@@ -104,6 +104,15 @@ def natural_failures(rng):
     d["natural"] = "duplicate-identifiers"
     d["script"] = "Z_1 <- %s;\n" % name + d["script"]
     out.append(d)
+    # the same, with an input file of more than 1 MiB (anything remembered per file, e.g. keyed by path / size / mtime,
+    # is remembered for this one too); the history's later runs read the same unchanged file
+    big_cols = ["Id_1", "Me_1"]
+    big_lines = ["Id_1,Me_1"] + ["%d,%d.5" % (i, i % 97) for i in range(90000)] + ["17,3.5"]
+    out.append({"api": "run", "script": "B_r <- B_1 * 2;\n", "structures": {"datasets": [{"name": "B_1", "DataStructure": [
+        {"name": "Id_1", "type": "Integer", "role": "Identifier", "nullable": False},
+        {"name": "Me_1", "type": "Number", "role": "Measure", "nullable": True}]}]},
+        "data": {"B_1": {"kind": "csv_text", "text": "\n".join(big_lines) + "\n"}}, "kwargs": {}, "env": {}, "output_folder": False,
+        "natural": "duplicate-identifiers-large-file"})
     # second input broken so that the first one is already loaded when the failure happens
     d2 = json.loads(json.dumps(base))
     names = sorted(d2["data"])
